@@ -610,38 +610,39 @@ def obs_tree(x, seen=None):
             "keys": sorted((k, obs_tree(v, seen)) for k, v in x.items())}
 
 
-def obs_ordered(x, seen=None):
-    """insertion-ordered structure with the first element of every leaf (the model's vocabulary)"""
+def obs_ordered(x, seen=None, ptr_ids=None):
+    """insertion-ordered structure; every leaf: the identity class of its storage (the model's leaf id of the tensor that
+    existed before the call, 0 for a tensor created by the call) and its first element (the model's vocabulary)"""
     seen = seen or set()
     if not is_tensor_collection(x):
-        return ["leaf", int(x.reshape(-1)[0])]
+        return ["leaf", (ptr_ids or {}).get(x.data_ptr(), 0), int(x.reshape(-1)[0])]
     if id(x) in seen:
         return "CYCLE"
     seen = seen | {id(x)}
-    return ["node", [[k, obs_ordered(v, seen)] for k, v in x.items()]]
+    return ["node", [[k, obs_ordered(v, seen, ptr_ids)] for k, v in x.items()]]
 
 
 def has_cycle(o):
     return o == "CYCLE" or (isinstance(o, list) and any(has_cycle(c) for c in o))
 
 
-def spec_sx(spec, off=0, drop=(), prefix=()):
+def spec_sx(spec, off=0, drop=(), prefix=(), idbase=0):
     out = []
     for k, v in spec:
         if list(prefix + (k,)) in drop:
             continue
         if isinstance(v, list):
-            out.append([Sym(k), [Sym("node"), spec_sx(v, off, drop, prefix + (k,))]])
+            out.append([Sym(k), [Sym("node"), spec_sx(v, off, drop, prefix + (k,), idbase)]])
         else:
-            out.append([Sym(k), [Sym("leaf"), v * 1000 + off]])
+            out.append([Sym(k), [Sym("leaf"), idbase + v, v * 1000 + off]])
     return out
 
 
 def apply_model_lines(case, ran):
     spec = case["spec"]
     drop = case.get("drop", [])
-    others = [spec_sx(spec, 500, drop if case["others"] == "missing" else ())] if case["others"] != "none" else []
-    out = some(spec_sx(spec, -7)) if case["out"] else None
+    others = [spec_sx(spec, 500, drop if case["others"] == "missing" else (), idbase=2000)] if case["others"] != "none" else []
+    out = some(spec_sx(spec, -7, idbase=1000)) if case["out"] else None
     fe = case["filter_empty"]
     op = [case["named"], case["nested_keys"], case["inplace"], Sym("none") if fe is None else fe, case["default"], case["con"], case["cwd"]]
     base = [spec_sx(spec), others, out, op, list(case["noneset"])]
@@ -679,7 +680,7 @@ def make_apply_fn(case):
         lid = int(x.reshape(-1)[0]) // 1000
         if lid in noneset:
             return None
-        r = x + 1
+        r = (x.double() + 0.5) if case.get("fnkind") == "todouble" else x + 1
         for o in oth:
             r = r + (100 if o is None else 7 if is_tensor_collection(o) else o)
         if named:
@@ -698,10 +699,14 @@ def gen_apply_case(rng, nleaves):
             "checked": rng.random() < 0.5, "others": "none", "default": False, "con": rng.random() < 0.1,
             "names": False, "cwd": rng.random() < 0.15, "lazy": False}
     r = rng.random()
-    if r < 0.2:
+    if r < 0.3:
         case["inplace"] = True
-    elif r < 0.32:
+    elif r < 0.42:
         case["out"] = True
+    case["threads"] = rng.choice([1, 2, 2, 4])
+    # observers of in-place semantics: a function that changes the dtype, leaves in shared memory
+    case["fnkind"] = "todouble" if rng.random() < 0.15 else "inc"
+    case["shared"] = rng.random() < 0.15
     r = rng.random()
     if r < 0.25:
         case["others"] = "full"
@@ -738,6 +743,41 @@ def apply_signature(case):
             "names_with_nested": bool(case["names"] and has_node(spec) and not case["con"])}
 
 
+def leaf_handles(td):
+    return {("/".join(k) if isinstance(k, tuple) else k): v for k, v in td.items(True, True)} if td is not None else {}
+
+
+def state_after(td, pre, view):
+    """what an observer holding handles taken BEFORE the call sees afterwards: per leaf of the tensordict that existed
+    before, is it still the same object / the same storage, does the old handle (and a view of the tensordict taken before)
+    see the new content, dtype, shared-ness.  Identity is reported as equivalence with the pre-call handles, never as addresses."""
+    out = {}
+    for key, old in pre.items():
+        new = td.get(tuple(key.split("/")), None)
+        if new is None or is_tensor_collection(new):
+            out[key] = {"present": False, "old_handle": old.reshape(-1).tolist()}
+            continue
+        e = {"present": True, "same_object": new is old, "same_storage": new.data_ptr() == old.data_ptr(),
+             "dtype": str(new.dtype), "shared": bool(new.is_shared()), "old_handle": old.reshape(-1).tolist(),
+             "old_handle_dtype": str(old.dtype)}
+        if view is not None:
+            v = view.get(tuple(key.split("/")), None)
+            e["view_sees"] = None if v is None else v.reshape(-1).tolist() == new[1:].reshape(-1).tolist()
+        out[key] = e
+    return out
+
+
+def id_classes(r, pre_self, pre_out):
+    """each leaf of the returned tensordict: the pre-existing leaf whose storage it is, or 'new'"""
+    if r is None or not is_tensor_collection(r):
+        return None
+    ptr = {}
+    for lab, pre in (("self", pre_self), ("out", pre_out)):
+        for key, old in pre.items():
+            ptr.setdefault(old.data_ptr(), lab + ":" + key)
+    return {k: ptr.get(v.data_ptr(), "new") for k, v in leaf_handles(r).items()}
+
+
 def run_apply(case, sched):
     """sched None: the single-threaded form; else (order, eager)"""
     spec = case["spec"]
@@ -750,6 +790,15 @@ def run_apply(case, sched):
     if case["others"] != "none":
         others = [build_tree(spec, off=500, drop=drop if case["others"] == "missing" else ())]
     out = build_tree(spec, off=-7) if case["out"] else None
+    track = not case["lazy"]
+    if case.get("shared") and track:
+        td.share_memory_()
+    pre_self = leaf_handles(td) if track else {}
+    pre_out = leaf_handles(out) if track else {}
+    view = td[1:] if track else None
+    # the model's leaf id of every pre-existing tensor (read before the call: an in-place apply changes the content)
+    leaf_ids = {(0, key): int(old.reshape(-1)[0]) // 1000 for key, old in pre_self.items()}
+    leaf_ids.update({(1000, key): (int(old.reshape(-1)[0]) + 7) // 1000 for key, old in pre_out.items()})
     fn = make_apply_fn(case)
     kw = {"inplace": case["inplace"], "out": out, "filter_empty": case["filter_empty"], "checked": case["checked"],
           "named": case["named"], "nested_keys": case["nested_keys"], "call_on_nested": case["con"]}
@@ -767,15 +816,21 @@ def run_apply(case, sched):
         else:
             with T.scheduled(*sched) as s:
                 if cwd is None:
-                    r = td._fast_apply(fn, *others, num_threads=2, **kw)
+                    r = td._fast_apply(fn, *others, num_threads=case.get("threads", 2), **kw)
                 else:
-                    r = td._multithread_apply_nest(fn, *others, num_threads=2, call_when_done=cwd, **kw)
+                    r = td._multithread_apply_nest(fn, *others, num_threads=case.get("threads", 2), call_when_done=cwd, **kw)
             o["ran"] = list(s.ran)
             o["never_run"] = s.never_run
         o["status"] = "ok"
         o["ret"] = "self" if r is td else "out" if (out is not None and r is out) else "none" if r is None else "new"
         o["result"] = obs_tree(r)
-        o["ordered"] = None if r is None else obs_ordered(r)
+        ptr_ids = {}
+        for base, pre, off in ((0, pre_self, 0), (1000, pre_out, 7)):
+            for key, old in pre.items():
+                ptr_ids.setdefault(old.data_ptr(), base + leaf_ids[(base, key)])
+        o["ordered"] = None if r is None else obs_ordered(r, None, ptr_ids)
+        if track:
+            o["ids"] = id_classes(r, pre_self, pre_out)
     except Exception as e:  # noqa: BLE001
         o["status"] = "raise"
         o["exc"] = type(e).__name__
@@ -783,6 +838,10 @@ def run_apply(case, sched):
             o["ran"] = list(s.ran)
     o["self"] = obs_tree(td)
     o["out"] = obs_tree(out)
+    if track and o["status"] == "ok":
+        # the STATE after the call as seen through handles / a view taken before it
+        o["state_self"] = state_after(td, pre_self, view)
+        o["state_out"] = state_after(out, pre_out, None) if out is not None else None
     return o
 
 
@@ -805,14 +864,20 @@ def check_apply(R):
             case["names"] = False
         st = run_apply(case, None)
         sig = apply_signature(case)
-        in_model = not case["lazy"] and not case["names"]
+        in_model = not case["lazy"] and not case["names"] and case["fnkind"] == "inc"
         if in_model:
             mlines.append(apply_model_lines(case, None))
             mobs.append((case, None, apply_impl_canon(st)))
         ntasks = len(case["spec"]) if case["con"] else nleaves * (2 if case["lazy"] else 1)
         scheds = T.schedules(ntasks, rng, exhaustive_upto=5)
         R.count("apply:leaves=%d" % nleaves)
-        for k in ("inplace", "out", "con", "cwd", "lazy", "names", "default"):
+        R.count("apply:num_threads=%d" % case["threads"])
+        R.count("apply:checked=%s" % case["checked"])
+        if case["inplace"]:
+            R.count("apply:inplace,checked=%s" % case["checked"])
+        if case["fnkind"] == "todouble":
+            R.count("apply:dtype-changing-fn")
+        for k in ("inplace", "out", "con", "cwd", "lazy", "names", "default", "shared"):
             if case[k]:
                 R.count("apply:" + k)
         R.count("apply:filter_empty=%s" % case["filter_empty"])
@@ -827,7 +892,7 @@ def check_apply(R):
                 mobs.append((case, {"order": order, "eager": eager, "completion": mt.get("ran", [])}, apply_impl_canon(mt)))
             if strip(mt) != strip(st):
                 c2 = dict(case, schedule={"order": order, "eager": eager})
-                what = "status" if mt["status"] != st["status"] else next(k for k in ("ret", "result", "self", "out") if mt.get(k) != st.get(k))
+                what = "status" if mt["status"] != st["status"] else next(k for k in ("ret", "result", "self", "out", "ids", "state_self", "state_out") if mt.get(k) != st.get(k))
                 R.oracle_fail("mt-apply:differs-from-single-thread", c2,
                               {"what": what, "single": st.get(what, st.get("exc")), "multi": mt.get(what, mt.get("exc"))},
                               dict(sig, kind="differs"))
@@ -1155,7 +1220,10 @@ def main(R):
               "chunksize 0, 1..4 workers, generator on/off, out= none/regular/shared/memmap, input regular/shared/memmap, functions returning "
               "tensordicts / None in place / mixed / chunk-dependent values, through an in-process pool and through real fork and spawn pools "
               "with per-chunk delays; (3) _multithread_apply_nest / _fast_apply(num_threads) over random nested trees (1..8 leaves) and the "
-              "option lattice (inplace, out, filter_empty, named, nested_keys, others/default, call_on_nested, names, call_when_done, lazy stacks), "
+              "option lattice (inplace, out, filter_empty, named, nested_keys, others/default, call_on_nested, names, call_when_done, lazy stacks, "
+              "checked in {True, False}, num_threads in {0 | 1, 2, 4}, a dtype-changing function, leaves in shared memory); compared are the returned "
+              "tensordict AND the state left behind: identity classes (object / storage) of the leaves of self and out before vs after, the values "
+              "seen through handles and a view taken before the call, dtype, shared-ness; "
               "memmap_/memmap/memmap_like/consolidate writers, each under every task permutation (apply: <= 5 tasks; writers: <= 4 tasks in quick, <= 5 in thorough) plus eager "
               "and random schedules; distinct by full case; non-trivial = more than one chunk / leaf") % (16 if R.quick else 40)
     R.assumptions = ["multiprocessing.Pool.imap yields results in submission order (trusted; exercised for real with delays that invert completion order)",
@@ -1252,6 +1320,10 @@ def replay(body):
         mt = run_apply(case, (sched["order"], sched["eager"]))
         print("single-threaded:", json.dumps(strip(st), default=str)[:2500])
         print("multithreaded under the schedule:", json.dumps(strip(mt), default=str)[:2500])
+        for k in ("ids", "state_self", "state_out"):
+            if st.get(k) != mt.get(k):
+                print(f"{k} (identity classes / what handles taken before the call see): single-threaded", json.dumps(st.get(k), default=str)[:1500])
+                print(f"{k}: multithreaded", json.dumps(mt.get(k), default=str)[:1500])
         if not case["lazy"] and not case["names"]:
             print("model:", run_model(PID, [apply_model_lines(case, None), apply_model_lines(case, mt.get("ran", []))]))
         print("signature:", apply_signature(case))
